@@ -6,7 +6,7 @@ import itertools
 import os
 import shutil
 from abc import ABC, abstractmethod
-from collections.abc import AsyncGenerator
+from collections.abc import AsyncGenerator, Iterable
 from contextlib import asynccontextmanager
 from dataclasses import dataclass
 from datetime import datetime, timezone
@@ -60,6 +60,9 @@ class Downloader(ABC):
         self._unmodified: list[DownloadFileCompressionVariant] = []
         # Either missing on server files or files with errors
         self._missing_sources: set[Path] = set()
+        # Files with the same content share their by-hash paths: transfers which
+        # touch the same path must not run at the same time
+        self._path_locks: dict[Path, asyncio.Lock] = {}
         self._download_start = datetime.now()
 
         self.reset_stats()
@@ -258,6 +261,7 @@ class Downloader(ABC):
                 tries = 10
                 while tries > 0:
                     async with (
+                        self._lock_paths(variant.get_all_paths()),
                         self._settings.semaphore,
                         self.stream(source_path) as response,
                     ):
@@ -418,6 +422,17 @@ class Downloader(ABC):
         self._error_size += source_file.size
 
         self._log.error(f"Unable to download {source_file.path}: no more tries")
+
+    @asynccontextmanager
+    async def _lock_paths(self, paths: Iterable[Path]):
+        async with contextlib.AsyncExitStack() as stack:
+            # Always lock in the same order to avoid deadlocks
+            for path in sorted(set(paths)):
+                await stack.enter_async_context(
+                    self._path_locks.setdefault(path, asyncio.Lock())
+                )
+
+            yield
 
     def get_downloaded_files(self) -> list[DownloadFileCompressionVariant]:
         return self._downloaded.copy()
